@@ -232,6 +232,28 @@ func ruleC20(r *Report) {
 						}
 					}
 				}
+				// in-place mutation of an object that is published through a guarded map of pointers: readers
+				// obtain the pointer under the lock and use it after releasing it, so writing through it races
+				// with them even when the writer holds the lock
+				if st, ok := in.(*ssa.Store); ok {
+					root := rootOfAddr(st.Addr)
+					if ex, ok := root.(*ssa.Extract); ok {
+						root = ex.Tuple
+					}
+					if lk, ok := root.(*ssa.Lookup); ok {
+						if ld, ok := lk.X.(*ssa.UnOp); ok {
+							if fa, ok := ld.X.(*ssa.FieldAddr); ok {
+								if n := namedOf(fa.X.Type()); n != nil {
+									key := n.Obj().Name() + "." + fieldName(fa.X.Type(), fa.Field)
+									if _, guarded := guard[key]; guarded {
+										r.Bad("C20.guarded", fmt.Sprintf("%s: write through a pointer taken from %s", fname, key), p.InstrPos(in),
+											"the object is shared with readers that obtained the same pointer from the map and use it outside the critical section; it must be replaced, not mutated in place")
+									}
+								}
+							}
+						}
+					}
+				}
 				// calls while holding locks
 				ci, ok := in.(ssa.CallInstruction)
 				if !ok {
